@@ -403,7 +403,7 @@ var needsLog = map[string]bool{"close": true, "pub": true, "pubbig": true, "next
 	"cons": true, "consk": true, "get": true, "getk": true, "gett": true, "offk": true, "offt": true, "del": true,
 	"delm": true, "size": true, "findo": true, "findc": true, "finds": true, "finda": true, "fupd": true, "fdel": true,
 	"trimo": true, "trimc": true, "trims": true, "trima": true, "cupd": true, "cdel": true, "trim1o": true,
-	"trim1c": true, "trim1s": true, "trim1a": true, "c1upd": true, "c1del": true, "backup": true, "probe": true, "compact": true, "delmb": true, "trimob": true}
+	"trim1c": true, "trim1s": true, "trim1a": true, "c1upd": true, "c1del": true, "backup": true, "probe": true, "compact": true, "delmb": true, "trimob": true, "bkhalf": true}
 
 func step(st *hstate, f []string) []string {
 	l := st.log
@@ -746,6 +746,31 @@ func step(st *hstate, f []string) []string {
 		}
 		if err != nil {
 			return e(err)
+		}
+		return []string{"ok"}
+	case "bkhalf":
+		// bkhalf <name>: what a Backup that was interrupted leaves in the target - for every segment of the source the
+		// log file copied and given the source's mtime (the first half of Segment.Backup), the index file not yet
+		tgt := st.dir + ".bk." + f[1]
+		if err := os.MkdirAll(tgt, 0700); err != nil {
+			return e(err)
+		}
+		for _, sg := range listSegs(st.dir) {
+			b, err := os.ReadFile(sg.Log)
+			if err != nil {
+				return e(err)
+			}
+			fi, err := os.Stat(sg.Log)
+			if err != nil {
+				return e(err)
+			}
+			dst := filepath.Join(tgt, filepath.Base(sg.Log))
+			if err := os.WriteFile(dst, b, 0600); err != nil {
+				return e(err)
+			}
+			if err := os.Chtimes(dst, fi.ModTime(), fi.ModTime()); err != nil {
+				return e(err)
+			}
 		}
 		return []string{"ok"}
 	case "bkobs":
